@@ -200,6 +200,7 @@ class Walker:
         parameter names to argument expressions (used when inlining)."""
         self.cls = cls if cls is not None else self.cls
         self.self_cls = self.cls        # the class of the object ``self`` is (inlining a base method keeps it)
+        self.module = getattr(func, '_module', None) or (getattr(self.cls, 'module', None) if self.cls is not None else None)
         st = Path()
         if bind:
             st.env.update(bind)
@@ -262,6 +263,12 @@ class Walker:
                 target = n
                 break
         if target is None:
+            # a lookup in a constant table of the module is the chain of conditionals it stands for:
+            # T.get(key) with T = {'a': x, 'b': y}   is   x if key == 'a' else (y if key == 'b' else None)
+            chain = self._table_lookup_chain(value, st)
+            if chain is not None:
+                node, repl = chain
+                return self.stmt(_copy_replacing(s, node, repl), st, depth)
             return None
 
         # two copies of the statement, each with one arm in place of the conditional
@@ -271,6 +278,61 @@ class Walker:
         ast.copy_location(new, s)
         ast.fix_missing_locations(new)
         return self.s_If(new, st, depth)
+
+    def _table_lookup_chain(self, value, st):
+        tables = getattr(self, 'module_tables', None)
+        mod = getattr(self, 'module', None)
+        if tables is None or mod is None:
+            return None
+        tabs0 = tables(mod)
+        for n in _unconditional_nodes(value):
+            tabs = tabs0
+            name = key = default = None
+            if isinstance(n, ast.Call) and isinstance(n.func, ast.Attribute) and n.func.attr == 'get' and isinstance(n.func.value, ast.Name) \
+                    and 1 <= len(n.args) <= 2 and not n.keywords:
+                name, key = n.func.value.id, n.args[0]
+                default = n.args[1] if len(n.args) == 2 else ast.Constant(value=None)
+            elif isinstance(n, ast.Subscript) and isinstance(n.value, ast.Name) and isinstance(n.ctx, ast.Load) and not isinstance(n.slice, ast.Slice):
+                name, key = n.value.id, n.slice
+            ctabs = getattr(self, 'class_tables', None)
+            scls = getattr(self, 'self_cls', None) or self.cls
+            def class_table(e):
+                if ctabs is not None and scls is not None and isinstance(e, ast.Attribute) and isinstance(e.value, ast.Name) and e.value.id in ('self', 'cls') and hasattr(scls, 'node'):
+                    return ctabs(scls).get(e.attr)
+                return None
+            d_direct = None
+            if name is None and isinstance(n, ast.Call) and isinstance(n.func, ast.Attribute) and n.func.attr == 'get' and 1 <= len(n.args) <= 2 and not n.keywords:
+                d_direct = class_table(n.func.value)
+                if d_direct is not None:
+                    key = n.args[0]
+                    default = n.args[1] if len(n.args) == 2 else ast.Constant(value=None)
+                    name = '<class table %s>' % n.func.value.attr
+            if name is not None and d_direct is None and name in st.env:
+                ev = st.env[name]
+                if isinstance(ev, ast.Name) and ev.id in tabs and ev.id not in st.env:
+                    name = ev.id          # a local alias of the table
+                elif class_table(ev) is not None:
+                    d_direct = class_table(ev)
+                    name = '<class table %s>' % ev.attr
+            if d_direct is not None:
+                if isinstance(key, ast.Constant) or not _pure_test(key):
+                    continue
+                tabs = dict(tabs)
+                tabs[name] = d_direct
+            if name is None or name not in tabs or name in st.env or isinstance(key, ast.Constant) or not _pure_test(key):
+                continue
+            d = tabs[name]
+            if default is None:
+                # T[key]: the residual lookup stands for "none of the keys" (KeyError)
+                default = ast.Subscript(value=ast.Name(id='<no such key in %s>' % name, ctx=ast.Load()), slice=copy.deepcopy(key), ctx=ast.Load())
+            expr = default
+            for k, v in reversed(list(zip(d.keys, d.values))):
+                test = ast.Compare(left=copy.deepcopy(key), ops=[ast.Eq()], comparators=[copy.deepcopy(k)])
+                expr = ast.IfExp(test=test, body=copy.deepcopy(v), orelse=expr)
+            ast.copy_location(expr, n)
+            ast.fix_missing_locations(expr)
+            return n, expr
+        return None
 
     def s_Pass(self, s, st, d): return [(st, None)]
     def s_Global(self, s, st, d): return [(st, None)]
@@ -1103,6 +1165,32 @@ class _Ev:
                 and isinstance(args[1].value, str) and args[1].value.isidentifier():
             return self.v_Attribute(ast.Attribute(value=e.args[0], attr=args[1].value, ctx=ast.Load()), cond)
         in_binder = bool(self.shadow)
+        # (lambda a, b: E)(x, y) is E with x, y in place of a, b
+        if isinstance(func, ast.Lambda) and not kws and not any(isinstance(a, ast.Starred) for a in args):
+            la = func.args
+            if not la.vararg and not la.kwarg and not la.kwonlyargs and not la.posonlyargs and len(la.args) == len(args) and not la.defaults:
+                inner = {x.arg for sub in ast.walk(func.body) if isinstance(sub, ast.Lambda) for x in sub.args.args}
+                comp = {x.id for sub in ast.walk(func.body) if isinstance(sub, ast.comprehension) for x in ast.walk(sub.target) if isinstance(x, ast.Name)}
+                names = [x.arg for x in la.args]
+                if not (set(names) & (inner | comp)):
+                    m = dict(zip(names, args))
+
+                    class _B(ast.NodeTransformer):
+                        def visit_Name(self_, n):
+                            if n.id in m and isinstance(n.ctx, ast.Load):
+                                return copy.deepcopy(m[n.id])
+                            return n
+                    body = _B().visit(copy.deepcopy(func.body))
+                    free = {x.id for x in ast.walk(func.body) if isinstance(x, ast.Name)} - set(names)
+                    if not (free & set(self.st.env)) and not getattr(self, '_beta', 0):
+                        # the names the lambda leaves free mean the same here: evaluate its body
+                        # (helper calls in it are followed like anywhere else)
+                        self._beta = 1
+                        try:
+                            return self.v(body, cond)
+                        finally:
+                            self._beta = 0
+                    return body
         # setattr(obj, name, val) is a store
         if isinstance(func, ast.Name) and func.id == 'setattr' and len(args) == 3:
             self.st.effects.append(Eff('setattr', e, obj=args[0], name=args[1], value=args[2], call=new,
